@@ -171,14 +171,30 @@ def handleRequest (s : Sess) (sid : String) (num : Int) : Sess × Out :=
   if (cur.length : Int) = num then fire s1 sid r cur.length "dkg.handleRequest|close|close(req.reply)"
   else (s1, .ok s!"reg {cur.length}")
 
+/-- the once-a-minute sweep of `pdkg.Loop` (8d5de85): for every registered request whose session
+context is done, `close(req.reply)`, forget the registration and its buffer. `done` = the session ids
+whose context is done at that moment (Go ranges over the map; visiting the done ids one by one and
+looking their entry up closes the same set of channels). -/
+def expire (s : Sess) : List String → Nat → Sess × Out
+  | [], k => (s, .ok s!"expired {k}")
+  | sid :: rest, k =>
+    match alookup sid s.req with
+    | none => expire s rest k
+    | some r =>
+      match fire s sid r 0 "dkg.pdkg.Loop|close|close(req.reply)" with
+      | (s1, .panic site) => (s1, .panic site)
+      | (s1, _) => expire s1 rest (k + 1)
+
 inductive SessEv where
   | msg (sid : String) (it : Item)
   | req (sid : String) (num : Int)
+  | expire (done : List String)
   deriving Repr
 
 def sessStep (cfg : Cfg) (s : Sess) : SessEv → Sess × Out
   | .msg sid it => if s.alive then handlePeerMsg cfg s sid it else (s, .dropped)
   | .req sid num => if s.alive then handleRequest s sid num else (s, .dropped)
+  | .expire done => if s.alive then expire s done 0 else (s, .dropped)
 
 def sessRun (cfg : Cfg) : Sess → List SessEv → Sess × List Out
   | s, [] => (s, [])
